@@ -1,13 +1,33 @@
 package main
 
-// C19: signatures of the known-finding classes.  Every predicate is a decidable property of the INPUT: it is
-// evaluated on the graph d2compiler.Compile returns for the script (before any layout) plus the engine name.
+// C19: signatures of the known-finding classes, EXACT about the recorded defect.
+//
+// A case carries a known-finding id only when EVERY violation the harness sees in it (final diagram and every
+// graph returned by the engine; for Nest cases: the failed hypothesis) is explained by a recorded defect:
+//   * per violation: the shapes involved must be the ones the defect acts on (the grid whose own width/height is
+//     set / that is person-shaped and one of its cells, sticking out along an axis that is set; two constant nears
+//     on the same constant; the ELK container with the outside label and one of its children, sticking out along
+//     the margin axis by at most the margin; the container end of a container<->descendant edge; for dagre's
+//     cross-rank spacing: a shape of a dagre run in which adjustCrossRankSpacing acts at all, sticking out of its
+//     container across the rank direction only), and
+//   * for the two grid defects a CONTROL layout of the same script with only the trigger removed (width/height of
+//     the grid container cleared / shape person replaced) must not show a cell outside that grid any more.
+// One unexplained violation removes all ids from the case: it is then reported as a violation.  The predicates
+// read the compiled input attributes, the engine name and the label / icon positions of the laid-out graph (fixed
+// by the input before any geometry is computed); the geometry is only used to decide WHICH shapes a violation
+// involves and along which axis.
 
 import (
+	"math"
+	"sort"
 	"strings"
 
 	"oss.terrastruct.com/d2/d2compiler"
 	"oss.terrastruct.com/d2/d2graph"
+	"oss.terrastruct.com/d2/d2layouts"
+	"oss.terrastruct.com/d2/d2layouts/d2dagrelayout"
+	"oss.terrastruct.com/d2/d2layouts/d2elklayout"
+	"oss.terrastruct.com/d2/lib/label"
 )
 
 const (
@@ -19,10 +39,6 @@ const (
 	c19KFDagreSpacing = "C19-dagre-cross-rank-spacing"
 )
 
-func c19IsOutsidePos(s *d2graph.Scalar) bool {
-	return s != nil && strings.HasPrefix(strings.ToLower(s.Value), "outside-")
-}
-
 func c19Compile(script string) *d2graph.Graph {
 	g, _, err := d2compiler.Compile("", strings.NewReader(script), nil)
 	if err != nil {
@@ -31,7 +47,7 @@ func c19Compile(script string) *d2graph.Graph {
 	return g
 }
 
-// c19InSpecial: o lives inside a sequence diagram (its layout is not the engine's)
+// c19InSeq: o lives inside a sequence diagram (its layout is not the engine's)
 func c19InSeq(o *d2graph.Object) bool {
 	for p := o.Parent; p != nil; p = p.Parent {
 		if p.IsSequenceDiagram() {
@@ -41,39 +57,291 @@ func c19InSeq(o *d2graph.Object) bool {
 	return false
 }
 
-func c19KF(g *d2graph.Graph, gf *d2graph.Graph, engine string) (ids []string) {
+func c19IsExplicitGrid(o *d2graph.Object) bool {
+	return o != nil && o.IsGridDiagram() && (o.WidthAttr != nil || o.HeightAttr != nil)
+}
+
+func c19IsPersonGrid(o *d2graph.Object) bool {
+	return o != nil && o.IsGridDiagram() && strings.EqualFold(o.Shape.Value, "person")
+}
+
+// c19ConstNearKey: the constant of a top-level constant near, "" otherwise.
+func c19ConstNearKey(gf *d2graph.Graph, o *d2graph.Object) string {
+	if o == nil || o.Parent != gf.Root || o.NearKey == nil || !o.IsConstantNear() {
+		return ""
+	}
+	return d2graph.Key(o.NearKey)[0]
+}
+
+// c19AncestorEnd: o is the container end of an edge that joins a container with one of its own descendants.
+func c19AncestorEnd(gf *d2graph.Graph, o *d2graph.Object) bool {
+	for _, e := range gf.Edges {
+		if e.Src == e.Dst || e.Src == nil || e.Dst == nil {
+			continue
+		}
+		if e.Src == o && e.Dst.IsDescendantOf(o) {
+			return true
+		}
+		if e.Dst == o && e.Src.IsDescendantOf(o) {
+			return true
+		}
+	}
+	return false
+}
+
+// c19DagreRun: the dagre run that lays o out.  LayoutNested runs the engine once for the main graph and once for
+// every constant near and every grid cell that is a plain container (each as its own graph whose root carries the
+// container's attributes, so its own `direction`).  key = AbsID of the top object of the run ("" = main graph);
+// ok = false: o is not placed by the engine (inside a sequence diagram, or a grid cell that is a leaf / special).
+func c19DagreRun(gf *d2graph.Graph, o *d2graph.Object) (key, dir string, ok bool) {
+	if o == nil || o.Parent == nil || c19InSeq(o) {
+		return "", "", false
+	}
+	ownRun := func(p *d2graph.Object) bool {
+		isCell := p.Parent != nil && p.Parent.IsGridDiagram()
+		isNear := p.Parent == gf.Root && p.NearKey != nil && p.IsConstantNear()
+		return isCell || isNear
+	}
+	if ownRun(o) {
+		if o.IsGridDiagram() || o.IsSequenceDiagram() || (len(o.ChildrenArray) == 0 && o.Parent.IsGridDiagram()) {
+			return "", "", false // placed by d2grid / d2near, its contents by d2grid / d2sequence
+		}
+		return o.AbsID(), o.Direction.Value, true
+	}
+	for p := o.Parent; p != nil && p != gf.Root; p = p.Parent {
+		if ownRun(p) {
+			if p.IsGridDiagram() || p.IsSequenceDiagram() {
+				return "", "", false
+			}
+			return p.AbsID(), p.Direction.Value, true
+		}
+	}
+	return "", gf.Root.Direction.Value, true
+}
+
+// c19CrossSpacing: Object.Spacing() -- a function of the label / icon positions, label size, icon, 3d / multiple, all
+// fixed before the layout -- has a non-zero component ACROSS the rank direction dir (left/right for up/down,
+// top/bottom for left/right): d2dagrelayout.adjustCrossRankSpacing then calls shiftReachableDown for the object.
+func c19CrossSpacing(o *d2graph.Object, dir string) bool {
+	if o.IsGridDiagram() { // skipped by adjustCrossRankSpacing
+		return false
+	}
+	margin, padding := o.Spacing()
+	if dir == "left" || dir == "right" {
+		return margin.Top != 0 || margin.Bottom != 0 || padding.Top != 0 || padding.Bottom != 0
+	}
+	return margin.Left != 0 || margin.Right != 0 || padding.Left != 0 || padding.Right != 0
+}
+
+// c19RunHasCrossSpacing: adjustCrossRankSpacing is not a no-op in the dagre run that lays o out.
+func c19RunHasCrossSpacing(gf *d2graph.Graph, o *d2graph.Object) (has bool, dir string) {
+	key, dir, ok := c19DagreRun(gf, o)
+	if !ok {
+		return false, ""
+	}
+	for _, x := range gf.Objects {
+		if k, _, okx := c19DagreRun(gf, x); okx && k == key && c19CrossSpacing(x, dir) {
+			return true, dir
+		}
+	}
+	return false, dir
+}
+
+// c19Explain: the known-finding id that explains violation v of `shapes` (objects of the laid-out graph gf), or "".
+func c19Explain(v c19Viol, shapes []c19Shape, gf *d2graph.Graph, engine string) string {
+	const tol = 1.0
+	a, b := shapes[v.A], shapes[v.B]
+	if a.Obj == nil || b.Obj == nil {
+		return ""
+	}
+	if v.Kind == "contain" { // a = child, b = its container
+		ex := math.Max(b.X-a.X, a.X+a.W-(b.X+b.W))
+		ey := math.Max(b.Y-a.Y, a.Y+a.H-(b.Y+b.H))
+		p := b.Obj
+		if c19IsExplicitGrid(p) && a.Obj.Parent == p {
+			// the grid keeps the explicit size along the axes that are set; the cells start at the padding and can
+			// only stick out on the right / bottom of such an axis
+			okX := ex <= tol || (p.WidthAttr != nil && a.X >= b.X-tol)
+			okY := ey <= tol || (p.HeightAttr != nil && a.Y >= b.Y-tol)
+			if okX && okY {
+				return c19KFGridExplicit
+			}
+		}
+		if c19IsPersonGrid(p) && a.Obj.Parent == p && !c19IsExplicitGrid(p) {
+			return c19KFGridPerson
+		}
+		if engine == "elk" && len(p.ChildrenArray) > 0 && !p.IsGridDiagram() && !p.IsSequenceDiagram() && !c19InSeq(p) {
+			// ELK: the margin of the outside label / icon is taken away from the container after the layout
+			m, _ := p.SpacingOpt(label.PADDING, label.PADDING, false)
+			okX := ex <= tol || (m.Left+m.Right > 0 && ex <= math.Max(m.Left, m.Right)+tol)
+			okY := ey <= tol || (m.Top+m.Bottom > 0 && ey <= math.Max(m.Top, m.Bottom)+tol)
+			outside := (p.HasLabel() && p.LabelPosition != nil && label.FromString(*p.LabelPosition).IsOutside()) ||
+				(p.HasIcon() && p.IconPosition != nil && label.FromString(*p.IconPosition).IsOutside())
+			if outside && okX && okY {
+				return c19KFElkMargin
+			}
+		}
+		if engine == "dagre" {
+			if c19AncestorEnd(gf, p) || c19AncestorEnd(gf, a.Obj) {
+				return c19KFDagreAncEdge
+			}
+			// adjustCrossRankSpacing only moves / grows shapes across the rank direction: the child must stick out on
+			// that axis only, in a run in which adjustCrossRankSpacing acts at all
+			if has, dir := c19RunHasCrossSpacing(gf, a.Obj); has && !p.IsGridDiagram() {
+				horizontal := dir == "left" || dir == "right"
+				if (horizontal && ex <= tol) || (!horizontal && ey <= tol) {
+					return c19KFDagreSpacing
+				}
+			}
+		}
+		return ""
+	}
+	// overlap of two siblings
+	if ka, kb := c19ConstNearKey(gf, a.Obj), c19ConstNearKey(gf, b.Obj); ka != "" && ka == kb {
+		return c19KFNearsSame
+	}
+	if engine == "dagre" {
+		if c19AncestorEnd(gf, a.Obj) || c19AncestorEnd(gf, b.Obj) {
+			return c19KFDagreAncEdge
+		}
+		if has, _ := c19RunHasCrossSpacing(gf, a.Obj); has && (a.Obj.Parent == nil || !a.Obj.Parent.IsGridDiagram()) {
+			return c19KFDagreSpacing
+		}
+	}
+	return ""
+}
+
+// ---- control layouts: the same script with only the trigger of a grid defect removed ----
+
+func c19ClearExplicitGrids(g *d2graph.Graph) {
+	for _, o := range g.Objects {
+		if o.IsGridDiagram() {
+			o.WidthAttr, o.HeightAttr = nil, nil
+		}
+	}
+}
+
+func c19UnpersonGrids(g *d2graph.Graph) {
+	for _, o := range g.Objects {
+		if c19IsPersonGrid(o) {
+			o.Shape.Value = "rectangle"
+		}
+	}
+}
+
+// c19ControlBadGrids lays the script out like d2lib.Compile does (compiler, SetDimensions with the real ruler,
+// LayoutNested) after `mutate` changed the compiled graph, and returns the AbsIDs of the grid diagrams that still
+// have a cell outside their box (float boxes, 1 px).  ok = false: the control could not be laid out.
+func c19ControlBadGrids(script, engine string, mutate func(*d2graph.Graph)) (bad map[string]bool, ok bool) {
+	defer func() {
+		if e := recover(); e != nil {
+			ok = false
+		}
+	}()
+	g := c19Compile(script)
+	if g == nil || c19Ruler == nil {
+		return nil, false
+	}
+	mutate(g)
+	if err := g.SetDimensions(nil, c19Ruler, nil, nil); err != nil {
+		return nil, false
+	}
+	core := d2dagrelayout.DefaultLayout
+	if engine == "elk" {
+		core = d2elklayout.DefaultLayout
+	}
+	if err := d2layouts.LayoutNested(c19Ctx(), g, d2layouts.NestedGraphInfo(g.Root), core, d2layouts.DefaultRouter); err != nil {
+		return nil, false
+	}
+	shapes := c19GraphShapes(g)
+	bad = map[string]bool{}
+	for _, v := range c19Check(shapes, 1) {
+		if v.Kind == "contain" && shapes[v.B].Obj.IsGridDiagram() {
+			bad[shapes[v.B].ID] = true
+		}
+	}
+	return bad, true
+}
+
+// c19KFFor: the known-finding ids of a Pipe case, given all its violations; nil as soon as one is unexplained.
+func c19KFFor(script, engine string, gf *d2graph.Graph, groups [][]c19Shape) (ids []string, unexplained []string) {
+	has := map[string]bool{}
+	grids := map[string]map[string]bool{} // defect id -> grids it is blamed for
+	for _, shapes := range groups {
+		for _, v := range c19Check(shapes, 1) {
+			id := c19Explain(v, shapes, gf, engine)
+			if id == "" {
+				unexplained = append(unexplained, v.Kind+" "+shapes[v.A].ID+" / "+shapes[v.B].ID)
+				continue
+			}
+			has[id] = true
+			if id == c19KFGridExplicit || id == c19KFGridPerson {
+				if grids[id] == nil {
+					grids[id] = map[string]bool{}
+				}
+				grids[id][shapes[v.B].ID] = true
+			}
+		}
+	}
+	for id, blamed := range grids {
+		mutate := c19ClearExplicitGrids
+		if id == c19KFGridPerson {
+			mutate = c19UnpersonGrids
+		}
+		bad, ok := c19ControlBadGrids(script, engine, mutate)
+		for gid := range blamed {
+			if !ok || bad[gid] {
+				unexplained = append(unexplained, "control layout without the trigger of "+id+" still has a cell outside "+gid)
+			}
+		}
+	}
+	if len(unexplained) > 0 {
+		sort.Strings(unexplained)
+		return nil, unexplained
+	}
+	for id := range has {
+		ids = append(ids, id)
+	}
+	sort.Strings(ids)
+	return ids, nil
+}
+
+// c19Candidates: which defect classes the INPUT could trigger at all (used by the measurement mode and for the
+// generator distribution report; never used to suppress anything).
+func c19Candidates(g *d2graph.Graph, gf *d2graph.Graph, engine string) (ids []string) {
 	if g == nil {
 		return nil
 	}
 	has := map[string]bool{}
 	nearKeys := map[string]int{}
 	for _, o := range g.Objects {
-		if o.IsGridDiagram() && len(o.ChildrenArray) > 0 {
-			if o.WidthAttr != nil || o.HeightAttr != nil {
-				has[c19KFGridExplicit] = true
-			}
-			if strings.EqualFold(o.Shape.Value, "person") {
-				has[c19KFGridPerson] = true
-			}
+		if len(o.ChildrenArray) > 0 && c19IsExplicitGrid(o) {
+			has[c19KFGridExplicit] = true
+		}
+		if len(o.ChildrenArray) > 0 && c19IsPersonGrid(o) {
+			has[c19KFGridPerson] = true
 		}
 		if o.Parent == g.Root && o.NearKey != nil && o.IsConstantNear() {
 			nearKeys[d2graph.Key(o.NearKey)[0]]++
 		}
-		if engine == "elk" && len(o.ChildrenArray) > 0 && !o.IsGridDiagram() && !o.IsSequenceDiagram() && !c19InSeq(o) {
-			if (o.Label.Value != "" && c19IsOutsidePos(o.Attributes.LabelPosition)) ||
-				(o.Icon != nil && c19IsOutsidePos(o.Attributes.IconPosition)) {
-				has[c19KFElkMargin] = true
-			}
+	}
+	for _, n := range nearKeys {
+		if n > 1 {
+			has[c19KFNearsSame] = true
 		}
 	}
-	if engine == "elk" && gf != nil {
-		// ELK's positionLabelsIcons moves a container label that is larger than the (explicit) width/height to
-		// OUTSIDE_TOP_CENTER: read the position ELK was given from the laid-out graph
+	if gf != nil {
 		for _, o := range gf.Objects {
-			if len(o.ChildrenArray) > 0 && !o.IsGridDiagram() && !o.IsSequenceDiagram() && !c19InSeq(o) &&
-				o.Label.Value != "" && o.LabelPosition != nil && strings.HasPrefix(*o.LabelPosition, "OUTSIDE_") &&
-				(o.WidthAttr != nil || o.HeightAttr != nil) {
-				has[c19KFElkMargin] = true
+			if engine == "elk" && len(o.ChildrenArray) > 0 && !o.IsGridDiagram() && !o.IsSequenceDiagram() && !c19InSeq(o) {
+				if (o.HasLabel() && o.LabelPosition != nil && label.FromString(*o.LabelPosition).IsOutside()) ||
+					(o.HasIcon() && o.IconPosition != nil && label.FromString(*o.IconPosition).IsOutside()) {
+					has[c19KFElkMargin] = true
+				}
+			}
+			if engine == "dagre" {
+				if h, _ := c19RunHasCrossSpacing(gf, o); h {
+					has[c19KFDagreSpacing] = true
+				}
 			}
 		}
 	}
@@ -83,18 +351,6 @@ func c19KF(g *d2graph.Graph, gf *d2graph.Graph, engine string) (ids []string) {
 				has[c19KFDagreAncEdge] = true
 			}
 		}
-		if gf != nil {
-			for _, o := range gf.Objects {
-				if c19DagreCrossSpacing(gf, o) {
-					has[c19KFDagreSpacing] = true
-				}
-			}
-		}
-	}
-	for _, n := range nearKeys {
-		if n > 1 {
-			has[c19KFNearsSame] = true
-		}
 	}
 	for _, id := range []string{c19KFGridExplicit, c19KFGridPerson, c19KFNearsSame, c19KFElkMargin, c19KFDagreAncEdge, c19KFDagreSpacing} {
 		if has[id] {
@@ -102,31 +358,4 @@ func c19KF(g *d2graph.Graph, gf *d2graph.Graph, engine string) (ids []string) {
 		}
 	}
 	return ids
-}
-
-// c19DagreCrossSpacing: o is laid out by dagre as a NESTED node of its run (its parent is a container of the same
-// dagre graph) and Object.Spacing() -- a function of the label / icon positions, label size, icon, 3d / multiple,
-// all fixed before the layout -- has a non-zero component across the rank direction of that run (left/right for
-// direction up/down, top/bottom for left/right): adjustCrossRankSpacing then calls shiftReachableDown for it.
-func c19DagreCrossSpacing(gf *d2graph.Graph, o *d2graph.Object) bool {
-	if o.Parent == nil || o.Parent == gf.Root || o.Parent.IsGridDiagram() || o.IsGridDiagram() {
-		return false
-	}
-	dir := gf.Root.Direction.Value
-	for p := o.Parent; p != nil && p != gf.Root; p = p.Parent {
-		if p.IsSequenceDiagram() {
-			return false
-		}
-		isCell := p.Parent != nil && p.Parent.IsGridDiagram()
-		isNear := p.Parent == gf.Root && p.NearKey != nil && p.IsConstantNear()
-		if isCell || isNear {
-			dir = p.Direction.Value // the container is laid out as its own graph with its own attributes on the root
-			break
-		}
-	}
-	margin, padding := o.Spacing()
-	if dir == "left" || dir == "right" {
-		return margin.Top != 0 || margin.Bottom != 0 || padding.Top != 0 || padding.Bottom != 0
-	}
-	return margin.Left != 0 || margin.Right != 0 || padding.Left != 0 || padding.Right != 0
 }
